@@ -62,6 +62,11 @@ def gen_file(seed_i, nmax=10):
         m = msggen.gen_message(wl, cfg, enc, 6000 if big else 3000)
         if big and cfgj == "packaged" and wl.random() < 0.5:
             m.update(msggen.gen_pds(wl, enc, 5, wl.choice([1200, 3000, 4500])))
+        if big and cfgj == "packaged" and wl.random() < 0.5:
+            # records well above 4096 bytes: four long LLLVAR text elements
+            for de in ("DE54", "DE72", "DE111", "DE127"):
+                m[de] = msggen.gen_text(wl, wl.choice([999, 998, 990]), enc)
+            m.setdefault("DE63", msggen.gen_text(wl, 500, enc))
         if cfgj == "packaged":
             m.setdefault("DE2", "".join(wl.choice("0123456789") for _ in range(16)))
             m.setdefault("DE4", wl.randint(0, 10 ** 12 - 1))
@@ -327,6 +332,8 @@ def run_file_seed(seed_i, tier, part):
                 scn["style"] = f"resume:{1 + (k + len(kind)) % (k - 1)}"
             elif sel == 3 and k >= 2:
                 scn["style"] = f"twice:{1 + (k + len(kind)) % (k - 1)}"
+            if (k + len(kind)) % 4 == 1:
+                scn["pipe"] = True   # the file arrives through a non-seekable stream
             if base["config"] == "packaged" and (k + len(kind)) % 3 == 0:
                 if enc in ("latin_1", "cp500") and (k + len(kind)) % 2 == 0:
                     scn["tool"] = "mideu"
@@ -344,6 +351,8 @@ def run_file_seed(seed_i, tier, part):
                 c["probe:error_raised_beyond_tenth_record"] += 1
             if len(rec) > 1024:
                 c["probe:faulted_record_longer_than_1024_bytes"] += 1
+            if len(rec) > 4096:
+                c["probe:faulted_record_longer_than_4096_bytes"] += 1
             if info.get("tool"):
                 c[f"probe:reported_through_tool_{scn['tool']}"] += 1
             c[f"knob:reader_driven_by={scn.get('style', 'for').split(':')[0]}"] += 1
